@@ -53,7 +53,7 @@ def match(known, res, v):
         if not re.search(kf['label'], v['label']):
             continue
         try:
-            if eval(kf['when'], {'__builtins__': {'pip_rows': _fh.pip_rows, 'pip_has_equality': _fh.pip_has_equality, 'pip_incremental': _fh.pip_incremental, 'pip_forces_zero': _fh.pip_forces_zero, 'pip_first_tree_splits': _fh.pip_first_tree_splits, 'abs': abs, 'min': min, 'max': max, 'any': any, 'all': all, 'range': range, 'int': int, 'str': str, 'len': len}}, {'i': ins, 'f': facts, 'p': params}):
+            if eval(kf['when'], {'__builtins__': {'pip_rows': _fh.pip_rows, 'pip_has_equality': _fh.pip_has_equality, 'pip_incremental': _fh.pip_incremental, 'pip_forces_zero': _fh.pip_forces_zero, 'pip_first_tree_splits': _fh.pip_first_tree_splits, 'suc_context_line_meets_in_point': _fh.suc_context_line_meets_in_point, 'abs': abs, 'min': min, 'max': max, 'any': any, 'all': all, 'range': range, 'int': int, 'str': str, 'len': len}}, {'i': ins, 'f': facts, 'p': params}):
                 return kf
         except Exception:
             continue
